@@ -43,6 +43,7 @@ type cronDag struct {
 	TailMs   int      `json:"tailMs,omitempty"` // added to the last step: fine-tunes when the run ends relative to a tick
 	Present0 bool     `json:"present0"`        // exists when the daemon first starts
 	Susp0    bool     `json:"susp0,omitempty"` // suspended at the beginning
+	Big      bool     `json:"big,omitempty"`   // its first step carries an inline script of about 76 KB: the run's status document exceeds 64 KiB
 }
 
 type cronEvent struct {
@@ -98,12 +99,18 @@ func (d *cronDag) yaml(start []string) string {
 	b.WriteString("maxCleanUpTimeSec: 2\nsteps:\n")
 	for i := range d.DurSec {
 		fmt.Fprintf(&b, "  - name: s%d\n    command: simstep s%d\n", i, i)
+		if i == 0 && d.Big {
+			fmt.Fprintf(&b, "    script: %s\n", yq(cronBigScript))
+		}
 		if i > 0 {
 			fmt.Fprintf(&b, "    depends:\n      - s%d\n", i-1)
 		}
 	}
 	return b.String()
 }
+
+// cronBigScript makes the live status document of a run (which carries every step with its script) larger than 64 KiB.
+var cronBigScript = "#!/bin/sh\n# " + strings.Repeat("long inline script ", 4000) + "\nrun s0\n"
 
 func (d *cronDag) spec() *DagSpec {
 	sp := &DagSpec{File: d.File}
@@ -113,6 +120,9 @@ func (d *cronDag) spec() *DagSpec {
 			ms += d.TailMs
 		}
 		sp.Steps = append(sp.Steps, StepSpec{Name: fmt.Sprintf("s%d", i), RetryLimit: -1, DurMs: []int{ms}})
+	}
+	if d.Big {
+		sp.Steps[0].Script = cronBigScript
 	}
 	return sp
 }
@@ -158,6 +168,7 @@ func genCronScenario(tp *simrt.Tape, thorough bool) *cronScenario {
 	nd := 1 + tp.Draw(simrt.SGen, 3)
 	for i := 0; i < nd; i++ {
 		d := &cronDag{File: []string{"nightly", "report two", "etl"}[i], Form: pick(tp, "string", "string", "list", "map")}
+		d.Big = chance(tp, 1, 6)
 		ns := 1
 		if d.Form == "list" {
 			ns = 1 + tp.Draw(simrt.SGen, 3)
